@@ -229,11 +229,22 @@ func c17Run(e *Env, p *c17Plan, subs []simnet.Faults) {
 			continue
 		}
 		if !rec.entered {
-			sig := "not-hijacked"
 			if c.ReqConn != "" {
-				sig += "/closing-request"
+				// documented (RequestCtx.Hijack): the server skips the hijack handler when the
+				// request or the response carries Connection: close. Then the exchange is an
+				// ordinary last request: response complete, connection closed by the server.
+				e.Probe("hijack-skipped-closing-request")
+				if !p.NoResponse && !bytes.Contains(ex.Trailing, []byte("hijack-resp")) && ex.WriteErr == nil {
+					e.Violation("skipped-hijack/response-lost", "conn %d (hijacking request: %q): no hijack took place and the response did not reach the client (%q)", ci, c.ReqConn, clip(string(ex.Trailing), 200))
+					return
+				}
+				if !ex.Closed && !c.ClientFirst {
+					e.Violation("skipped-hijack/not-closed", "conn %d (hijacking request: %q): no hijack took place and the server left the connection open", ci, c.ReqConn)
+					return
+				}
+				continue
 			}
-			e.Violation(sig, "conn %d (hijacking request: %q): the hijack handler never ran (client saw %q)", ci, c.ReqConn, clip(string(ex.Trailing), 200))
+			e.Violation("not-hijacked", "conn %d: the hijack handler never ran (client saw %q)", ci, clip(string(ex.Trailing), 200))
 			return
 		}
 		e.Nontrivial = true
